@@ -41,7 +41,7 @@ CLAIMED = {
    design="DESIGN.md §3 C17"),
  "C02": dict(
    technique="bounded-exhaustive enumeration (E1) of malformed inputs on every public parsing entry point: all byte strings of length <= 2, all single-deviation mutants of generated valid encodings, nesting to depth 256, oversized lengths; inputs that can trigger an allocation abort are re-executed in child processes (fault isolation)",
-   text="145 byte-level entry points (every codec type, raw hash/key/signature parsers, FixedTransaction, ByronAddress, has_transaction_set_tag) x all 65 793 byte strings of length <= 2; ~1 000 valid seed encodings (generators at deviation <= 1) x every truncation point, 20 structural substitutions at every position, inserted break/null/container heads at every gap, every head rewritten to 0/n-1/n+1/n+2, definite->indefinite heads, duplicated tail entries, every length head rewritten to 2^16..2^63; nine container kinds (incl. set-tagged and general-constructor forms) nested to depths 1..256 in 15 recursive/enclosing types; malformed hex for every from_hex, every single-node replacement inside each type's own JSON, malformed Bech32/Base58/decimal text for 21 text parsers, ~300 documents for 13 free helpers (incl. string atoms with a multi-byte character at byte offsets 0-3 in every string position). Oracle: the call returns (no panic, no abort; a watchdog reports a decoder still running after 20 s), and an accepted value re-serialises to exactly one well-formed CBOR item for an independent reader. Choice vectors whose input could make the CBOR reader allocate a declared length are re-executed one by one in child processes so that an abort is attributed to one input.",
+   text="145 byte-level entry points (every codec type, raw hash/key/signature parsers, FixedTransaction, ByronAddress, has_transaction_set_tag) x all 65 793 byte strings of length <= 2; ~1 000 valid seed encodings (generators at deviation <= 1) x every truncation point, 20 structural substitutions at every position, inserted break/null/container heads at every gap, every head rewritten to 0/n-1/n+1/n+2, definite->indefinite heads, duplicated tail entries, well-formed tree edits (every container or string emptied, or its last entry removed), every length head rewritten to 2^16..2^63; nine container kinds (incl. set-tagged and general-constructor forms) nested to depths 1..256 in 15 recursive/enclosing types; malformed hex for every from_hex, every single-node replacement inside each type's own JSON, malformed Bech32/Base58/decimal text for 21 text parsers, ~300 documents for 13 free helpers (incl. string atoms with a multi-byte character at byte offsets 0-3 in every string position). Oracle: the call returns (no panic, no abort; a watchdog reports a decoder still running after 20 s), and an accepted value re-serialises to exactly one well-formed CBOR item for an independent reader. Choice vectors whose input could make the CBOR reader allocate a declared length are re-executed one by one in child processes so that an abort is attributed to one input.",
    note="Trusted: refcbor. Nesting > 256 out of scope. Two known findings (allocation of declared lengths inside cbor_event; lenient length checks + byte-preserving types re-emit malformed input). Thorough adds all pairs of substitutions on seeds <= 64 bytes.",
    design="DESIGN.md §3 C02"),
  "C03": dict(
@@ -51,7 +51,7 @@ CLAIMED = {
    design="DESIGN.md §3 C03"),
  "C05": dict(
    technique="explicit-state model checking (E2): breadth-first search over builder operation histories on the real TransactionBuilder with canonical-state deduplication; in every state every balancing method x configuration is executed (RNG answers within 1 deviation) and the built transaction is re-parsed and summed by an independent ledger oracle; model/implementation conformance checked in every state",
-   text="Histories to depth 2 (thorough 3) over 49 operations, plus depth 3 (thorough 4) over a 33-operation core alphabet (11 inputs of key/Byron/native-script/Plutus owners with ADA at three widths and 1-3 asset policies, an input added twice, 5 requested outputs, 9 certificates covering every deposit/refund class, key withdrawals incl. one of 0 lovelace and re-adding an account with another amount, native mint / burn / two-name mint, proposal, donation, 4 fee requests, collateral, metadata set and added as JSON, ttl and validity start, current treasury value, add_mint_asset_and_output, declared reference scripts); in each distinct builder state, 5 (thorough 9) balancing methods x 8 (10) configurations (default, prefer_pure_change, max_value_size=70 forcing split asset change, coins_per_byte=1, do_not_burn_extra_change, reference-input de-duplication, a 76-byte Byron change address with prefer_pure_change / with max_value_size=70, the older per-item entry points add_key_input / add_bootstrap_input / add_native_script_input / add_plutus_script_input / set_certs / set_withdrawals / set_mint; set-remove-set of every removable component). Whenever balancing and build_tx succeed the transaction bytes are parsed by refcbor, inputs resolved in the scenario's UTxO table, and consumed == produced checked in u128 for lovelace and every asset id with the harness's deposit/refund table. The parsed body is also compared with the plain reference model of the history (inputs, certificates, withdrawals, mint, proposals, donation, collateral).",
+   text="Histories to depth 2 (thorough 3) over 49 operations, plus depth 3 (thorough 4) over a 33-operation core alphabet (11 inputs of key/Byron/native-script/Plutus owners with ADA at three widths and 1-3 asset policies, an input added twice, 5 requested outputs, 9 certificates covering every deposit/refund class, key withdrawals incl. one of 0 lovelace and re-adding an account with another amount, native mint / burn / two-name mint, proposal, donation, 4 fee requests, collateral, metadata set and added as JSON, ttl and validity start, current treasury value, add_mint_asset_and_output, declared reference scripts); in each distinct builder state, 5 (thorough 9) balancing methods x 8 (10) configurations (default, prefer_pure_change, max_value_size=100 forcing split asset change, coins_per_byte=1, do_not_burn_extra_change, reference-input de-duplication, a 76-byte Byron change address with prefer_pure_change / with max_value_size=100, the older per-item entry points add_key_input / add_bootstrap_input / add_native_script_input / add_plutus_script_input / set_certs / set_withdrawals / set_mint; set-remove-set of every removable component). Whenever balancing and build_tx succeed the transaction bytes are parsed by refcbor, inputs resolved in the scenario's UTxO table, and consumed == produced checked in u128 for lovelace and every asset id with the harness's deposit/refund table. The parsed body is also compared with the plain reference model of the history (inputs, certificates, withdrawals, mint, proposals, donation, collateral).",
    note="Trusted: ledger rules transcription (notes/ledger_rules.md §1), refcbor, the scenario's UTxO table. State key = digest of the Debug rendering of the real sub-builders plus the model (finer than necessary, never coarser).",
    design="DESIGN.md §3 C05"),
  "C06": dict(
